@@ -95,6 +95,8 @@ pub struct World<T: E> {
   ishadow: Vec<Option<std::collections::VecDeque<i64>>>,
   irange: Vec<Option<(usize, usize)>>,
   /// identities handed out by iterator i so far
+  /// set by a monitor after which the history is abandoned (see `abandon`)
+  pub fatal: bool,
   iyield: Vec<Vec<u32>>,
   /// plain-data classes: the values the vector held when iterator i was created
   ibefore: Vec<Vec<u32>>,
@@ -145,6 +147,7 @@ impl<T: E> World<T> {
       iters: vec![],
       ishadow: vec![],
       irange: vec![],
+      fatal: false,
       iyield: vec![],
       ibefore: vec![],
       iscript: vec![],
@@ -249,6 +252,10 @@ impl<T: E> World<T> {
   }
 
   fn monitor(&mut self, s: String) {
+    // a vector whose length or capacity lies about its block: nothing further can be run on it safely
+    if s.starts_with("len_gt_cap") || s.starts_with("cap_exceeds_block") {
+      self.fatal = true;
+    }
     if !self.mon.contains(&s) {
       self.mon.push(s);
     }
@@ -1586,6 +1593,23 @@ impl<T: E> World<T> {
   }
 
   /// end of history: drop iterators, then vectors (library drops), then report the final ledger
+  /// stop after a fatal monitor: every object is leaked instead of dropped (running destructors over a
+  /// corrupted length would only crash or hang the harness; the violation is already recorded)
+  pub fn abandon(&mut self, k: usize) {
+    for i in 0..self.iters.len() {
+      if let Some(it) = self.iters[i].take() {
+        std::mem::forget(it);
+      }
+    }
+    for v in 0..self.vecs.len() {
+      if let Some(mv) = self.vecs[v].take() {
+        std::mem::forget(mv);
+      }
+      self.shadow[v] = None;
+    }
+    self.emit(k, "end", "stopped", "-");
+  }
+
   pub fn finish(&mut self, k: usize) {
     for i in 0..self.iters.len() {
       if let Some(it) = self.iters[i].take() {
@@ -1647,8 +1671,15 @@ pub fn run_history<T: E>(line: &str) -> String {
     }
     w.step(k, &toks);
     k += 1;
+    if w.fatal {
+      break;
+    }
   }
-  w.finish(k);
+  if w.fatal {
+    w.abandon(k);
+  } else {
+    w.finish(k);
+  }
   let out = std::mem::take(&mut w.out);
   drop(w);
   alloc::reset();
